@@ -22,6 +22,7 @@ mod posfmt;
 mod qlong;
 mod qref;
 mod quantile;
+mod rechist;
 mod record;
 mod report;
 mod serdelong;
